@@ -41,6 +41,13 @@ inductive Val
   | str (s : Bytes)
   deriving DecidableEq, Repr
 
+instance {ε α : Type} [DecidableEq ε] [DecidableEq α] : DecidableEq (Except ε α) := fun a b =>
+  match a, b with
+  | .ok x, .ok y => if h : x = y then isTrue (by rw [h]) else isFalse (fun e => h (by injection e))
+  | .error x, .error y => if h : x = y then isTrue (by rw [h]) else isFalse (fun e => h (by injection e))
+  | .ok _, .error _ => isFalse (fun e => by cases e)
+  | .error _, .ok _ => isFalse (fun e => by cases e)
+
 /-- `not v` -/
 def Val.falsy : Val → Bool
   | .int i => i == 0
@@ -501,5 +508,11 @@ def payload (s : Spec) (items : List Int) : Bytes :=
 /-- a SPHERE file promising `count` samples per channel; `pad` fills the header up to `hdrSize` -/
 def encode (s : Spec) (count : Nat) (pad : Bytes) (items : List Int) : Bytes :=
   headerText s count ++ pad ++ payload s items
+
+/-- "starts with a NIST_1A header of at least 1024 bytes": 1024 bytes are there, they begin with the magic,
+    and their second line is an integer (as Python's `int` reads one) that is at least 1024 -/
+def StartsWithNistHeader (file : Bytes) : Prop :=
+  1024 ≤ file.length ∧ file.take 7 = kNIST ∧
+    ∃ line n, (splitOn 10 (file.take 1024))[1]? = some line ∧ pyIntBytes line = some n ∧ 1024 ≤ n
 
 end PdsVerif.Model.Sphere
